@@ -6,7 +6,7 @@ from vlib.harness import Violation
 PID = "C22"
 RULE = ("REPL sessions of 4..14 cells (thorough ..30): type declarations (storage with 0, 1 or 2 big maps / sapling states / "
         "parameter), BEGIN "
-        "with empty or non-empty big_map literals, contract bodies split into 1..3 cells (big_map UPDATE on the storage's maps, "
+        "with empty or non-empty big_map literals or big_map identifiers, contract bodies split into 1..3 cells (big_map UPDATE on the storage's maps, "
         "EMPTY_BIG_MAP + UPDATE of fresh maps), COMMIT, free cells (PUSH / DUP / SWAP / DROP / EMPTY_BIG_MAP / UPDATE / GET / "
         "PATCH AMOUNT|NOW|BALANCE / DROP_ALL / DUMP), and FAILING cells built from a prefix of the atoms of the next successful "
         "cell (so the cell mutates the stack, the big maps and the context counters exactly like real code) followed by a "
@@ -27,8 +27,8 @@ S_TYPES = {
     "SB": "pair (big_map nat nat) (sapling_state 8)",
 }
 BEGIN_LIT = {
-    "S2": ["(Pair {} {})", "(Pair { Elt 1 2 } {})", "(Pair {} { Elt 5 6 ; Elt 7 8 })"],
-    "S1": ["{}", "{ Elt 1 2 }"],
+    "S2": ["(Pair {} {})", "(Pair { Elt 1 2 } {})", "(Pair {} { Elt 5 6 ; Elt 7 8 })", "(Pair 7 {})", "(Pair 7 8)", "(Pair {} 3)"],
+    "S1": ["{}", "{ Elt 1 2 }", "7", "0"],
     "S0": ["5", "0"],
     "SS": ["(Pair {} {})"],
     "SB": ["(Pair {} {})", "(Pair { Elt 1 2 } {})"],
@@ -42,8 +42,12 @@ BODIES = {
         ["CDR", "UNPAIR", "DROP", "EMPTY_BIG_MAP nat nat", "PUSH (option nat) (Some 9)", "PUSH nat 9", "UPDATE", "PAIR", "NIL operation",
          "PAIR"],
         ["CDR", "UNPAIR", "PUSH (option nat) None", "PUSH nat 1", "UPDATE", "PAIR", "NIL operation", "PAIR"],
+        ["CDR", "NIL operation", "PAIR"],
+        ["CDR", "UNPAIR", "SWAP", "PAIR", "NIL operation", "PAIR"],
     ],
     "S1": [
+        ["CDR", "NIL operation", "PAIR"],
+        ["CDR", "DUP", "DROP", "NIL operation", "PAIR"],
         ["CDR", "PUSH (option nat) (Some 7)", "PUSH nat 1", "UPDATE", "NIL operation", "PAIR"],
         ["DROP", "EMPTY_BIG_MAP nat nat", "PUSH (option nat) (Some 1)", "PUSH nat 0", "UPDATE", "NIL operation", "PAIR"],
         ["CDR", "PUSH (option nat) None", "PUSH nat 1", "UPDATE", "PUSH (option nat) (Some 2)", "PUSH nat 3", "UPDATE", "NIL operation",
